@@ -12,13 +12,22 @@
 EXTENDS Naturals, Sequences, FiniteSets, TLC
 Raised(o) == {o.results[i].res : i \in DOMAIN o.results} \cup {o.errs[i] : i \in DOMAIN o.errs}
 NoRaise(o) == Raised(o) \subseteq {"ok", "none"}
+\* (expected[] is computed for the resources as they are at the start; once the caller has made a missing resource appear the
+\* comparison of contents no longer applies - then ReachableIsLoaded says what is left to demand)
+AppearedBefore(o, i) == \E j \in 1..(i - 1) : o.results[j].op = "appear"
 Transparent(o) == \A i \in DOMAIN o.results :
-                     (o.results[i].op = "load" /\ o.results[i].res = "ok") => o.results[i].sig = o.expected[o.results[i].url]
+                     (o.results[i].op = "load" /\ o.results[i].res = "ok" /\ ~AppearedBefore(o, i)) => o.results[i].sig = o.expected[o.results[i].url]
+\* load(u) returns None only if u cannot be fetched or parsed when the call is made (results[i].usable): a fetch that failed
+\* earlier - in a background loader or in an earlier load - is not remembered
+ReachableIsLoaded(o) == \A i \in DOMAIN o.results :
+                           (o.results[i].op = "load" /\ o.results[i].res = "ok") => ((o.results[i].sig = "none") <=> ~o.results[i].usable)
 \* "later loads return the same cached object until refresh": compared within one epoch
 Epoch(o, i) == Cardinality({j \in 1..i : o.results[j].op = "refresh"})
 SameCached(o) == \A i, j \in DOMAIN o.results :
                      (o.results[i].op = "load" /\ o.results[j].op = "load" /\ o.results[i].url = o.results[j].url
-                      /\ o.results[i].res = "ok" /\ o.results[j].res = "ok" /\ Epoch(o, i) = Epoch(o, j)) => o.results[i].obj = o.results[j].obj
+                      /\ o.results[i].res = "ok" /\ o.results[j].res = "ok" /\ Epoch(o, i) = Epoch(o, j)
+                      /\ o.results[i].obj # "none" /\ o.results[j].obj # "none")       \* (None is not a cached document)
+                     => o.results[i].obj = o.results[j].obj
 \* cache_before / cache_after[url]: "absent" | "current" | "old" | "other" - the cache file of url at the start / the end
 \* "a fetch that fails never creates or overwrites a cache file"; and no cache file ever holds anything but a resource's text
 CacheSafe(o) == /\ \A x \in DOMAIN o.fetchok : ~o.fetchok[x] => o.cache_after[x] = o.cache_before[x]
